@@ -180,7 +180,13 @@ pub fn exact<const LA: usize, const LB: usize>() {
     } else {
         assert!(!rp && !rs, "oracle: prefix/suffix true for longer needle");
     }
-    kani::cover!(r, "equal");
+    if LA == LB {
+        kani::cover!(r, "equal");
+    } else if LB <= LA {
+        kani::cover!(rp, "proper prefix");
+    } else {
+        kani::cover!(!rp && !rs, "needle longer than haystack");
+    }
 }
 
 /// is_equal_raw with symbolic n inside exact-size buffers.
